@@ -712,6 +712,34 @@ def section_names(env, ctx, model):
                 longer = list(args)
                 longer[idx[0]] = env.BlockArray(args[idx[0]].arrays[:-1])
                 run_call(env, ctx, model, "names", kind, fn_id, raw, snp_fn, longer, dict(kwt), f"{fam_tag}/second-longer")
+    # the whole namespace: a name outside the lists is jax.numpy's own object (passed through untouched), a name in the
+    # lists is not (it is wrapped) - the translator's name list is the running namespace
+    names = translate_lists.read_namespace()
+    wrapped_all = set(t["creation_routines"]) | set(t["mathematical_functions"])
+    ctx.extra["namespace"] = {"jax_numpy_names": len(names), "wrapped": len(wrapped_all & set(names)), "passed_through": len([n for n in names if n not in wrapped_all])}
+    for n in names:
+        try:
+            a, b = be.getpath(env.snp, n), be.getpath(env.jnp, n)
+            status = "same-object" if a is b else "wrapped"
+        except AttributeError:
+            status = "missing"
+        want = "wrapped" if n in wrapped_all else "same-object"
+        ctx.case({"section": "namespace", "name": n}, None)
+        ctx.count(f"namespace:{status}")
+        if status != want:
+            x0 = gen_block(env, rng, "b", "x")
+
+            def ns_oracle(c, n=n, want=want, status=status, x0=x0):
+                if want != "wrapped":
+                    return None
+                try:
+                    r = be.getpath(env.snp, n)(x0)
+                    okk = isinstance(r, env.BlockArray) or n in t["reduction_functions"]
+                except Exception as e:  # noqa: BLE001
+                    return {"call": f"snp.{n}(x)", "x": jsonable(x0), "outcome": {"err": common.err_kind(e)}, "documented": "listed in scico.numpy.mathematical_functions: mapped over the blocks"}
+                return None if okk else {"call": f"snp.{n}(x)", "x": jsonable(x0), "outcome": be.describe(r), "documented": "mapped over the blocks"}
+
+            ctx.disagree("block.namespace", {"section": "namespace", "name": n}, status, want, oracle=ns_oracle)
     ctx.extra["names_without_accepted_pattern"] = sorted(nopattern)
     ctx.extra["names_skipped"] = SKIP_NAMES
     ctx.extra["names_with_several_outputs"] = sorted(multi_output)
@@ -1009,6 +1037,70 @@ def section_operators(env, ctx, model):
                     ctx.disagree("block.binop", case, show_impl(impl), show(env, m, ev), oracle=oracle, known_id=kid)
 
 
+def section_nonlifted(env, ctx, model):
+    """operators a block array does not have (pinned list of `BlockLists.pinnedNonLifted`): TypeError for every operand,
+    on either side; in-place operators fall back to the binary operator and rebind to a NEW block array (an alias of
+    the old one is unchanged: history / aliasing stream)"""
+    rng = ctx.rng
+    jnp, BA = env.jnp, env.BlockArray
+    pinned = ["__invert__", "__divmod__", "__rdivmod__", "__lshift__", "__rlshift__", "__rshift__", "__rrshift__",
+              "__and__", "__rand__", "__xor__", "__rxor__", "__or__", "__ror__"]
+    lifted = set(env.tables["unary_ops"]) | set(env.tables["binary_ops"])
+    ops2 = dict(PYOPS, __divmod__=divmod, __rdivmod__=lambda a, b: divmod(b, a))
+    reflected_names = {"__rdivmod__", "__rlshift__", "__rrshift__", "__rand__", "__rxor__", "__ror__"}
+    for kd in ("i", "b"):
+        x = gen_block(env, rng, "b", kd)
+        others = [("block", gen_block(env, rng, "b", kd)), ("jax-array", gen_array(env, rng, (3,), kd)), ("numpy-array", np.asarray(gen_array(env, rng, (3,), kd))),
+                  ("int", 2), ("bool", True), ("numpy-int", np.int64(2))]
+        for name in pinned:
+            if name == "__invert__":
+                impl = impl_call(lambda: ~x, [], {})
+                cases = [("-", impl)]
+            else:
+                cases = [(ok, impl_call(lambda o=o: ops2[name](x, o), [], {})) for ok, o in others if not (name in reflected_names and ok == "block")]
+            for ok, impl in cases:
+                ctx.case({"section": "nonlifted", "op": name, "other": ok, "kind": kd}, ("nonlifted", name, ok, kd))
+                want_lifted = name in lifted
+                if ok.startswith("numpy") and not want_lifted and name != "__invert__" and name not in reflected_names:
+                    # numpy's own (reflected) operator takes over and treats the block array as a sequence of arrays: the outcome
+                    # is numpy's for the list of the blocks (ValueError for blocks of different shapes), never a block-wise result
+                    o = dict(others)[ok]
+                    ref = impl_call(lambda: ops2[name](list(x.arrays), o), [], {})
+                    ctx.count(f"nonlifted:numpy-takes-over:{impl[1] if impl[0] == 'err' else 'value'}")
+                    if impl[0] != ref[0] or (impl[0] == "err" and impl[1] != ref[1]) or (impl[0] == "ok" and isinstance(impl[1], BA)):
+                        ctx.disagree("block.nonlifted", {"section": "nonlifted", "op": name, "other": ok, "kind": kd}, show_impl(impl), show_impl(ref))
+                    continue
+                ctx.count(f"nonlifted:{'TypeError' if impl == ('err', 'type') else 'other'}")
+                if (impl != ("err", "type")) != want_lifted or (name in BA.__dict__) != want_lifted:
+                    ctx.disagree("block.nonlifted", {"section": "nonlifted", "op": name, "other": ok, "kind": kd}, show_impl(impl), "TypeError (operator not defined on BlockArray)" if not want_lifted else "lifted")
+    # in-place operators: value of the binary operator, a new object, aliases untouched
+    import operator as _o
+
+    for iname, f, g in [("+=", _o.iadd, _o.add), ("-=", _o.isub, _o.sub), ("*=", _o.imul, _o.mul), ("/=", _o.itruediv, _o.truediv), ("**=", _o.ipow, _o.pow),
+                        ("//=", _o.ifloordiv, _o.floordiv), ("%=", _o.imod, _o.mod), ("@=", _o.imatmul, _o.matmul)]:
+        for ok, mk in [("scalar", lambda: 2.0), ("block", lambda: gen_block(env, rng, "c", "p")), ("array", lambda: gen_array(env, rng, (1,), "p"))]:
+            x = gen_block(env, rng, "c", "p")
+            if iname == "@=":
+                x = BA([gen_array(env, rng, (3,), "p"), gen_array(env, rng, (3,), "p")])
+                o = BA([gen_array(env, rng, (3,), "p"), gen_array(env, rng, (3,), "p")]) if ok == "block" else (gen_array(env, rng, (3,), "p") if ok == "array" else None)
+                if o is None:
+                    continue
+            else:
+                o = mk()
+            alias = x
+            before = [np.asarray(b).copy() for b in x.arrays]
+            want = impl_call(lambda: g(x, o), [], {})
+            got = impl_call(lambda: f(x, o), [], {})
+            ctx.case({"section": "inplace", "op": iname, "other": ok}, ("inplace", iname, ok))
+            ctx.count("inplace:cases")
+            good = want[0] == got[0] and (want[0] == "err" or (same(want[1], got[1]) and got[1] is not alias))
+            untouched = all(np.array_equal(np.asarray(b), c) for b, c in zip(alias.arrays, before)) and len(alias.arrays) == len(before)
+            if not (good and untouched):
+                fail = {"statement": f"y = x; x {iname} o", "other": ok, "x_after": show_impl(got), "x_op_o": show_impl(want),
+                        "alias_y_unchanged": bool(untouched), "new_object": bool(got[0] == "ok" and got[1] is not alias)}
+                ctx.disagree("block.inplace", {"section": "inplace", "op": iname, "other": ok}, fail["x_after"], fail["x_op_o"], oracle=lambda c, fail=fail: fail)
+
+
 METHOD_ARGS = {
     "astype": [np.float32], "reshape": [-1], "clip": [-0.5, 0.5], "repeat": [2], "take": [0], "searchsorted": [0.0],
     "compress": [np.array([True])], "choose": None, "dot": [2.0], "swapaxes": None, "view": [np.int64], "to_device": None,
@@ -1132,6 +1224,62 @@ def section_slices(env, ctx, model):
                 return {"expr": f"x[{a}:{b}:{st}]", "n_blocks": n, "scico_result": show_impl(impl), "expected_blocks": [int(w[0]) for w in want]}
 
             ctx.disagree("block.getslice", {"section": "slice", "n": n, "start": a, "stop": b, "step": st}, show_impl(impl), mi, oracle=slice_oracle)
+
+
+def section_setslice(env, ctx, model):
+    """`x[start:stop:step] = values` against the model (`setSlice`): n <= 3 blocks, start/stop in {None, -4..4}, step in
+    {None, 1, 2, -1, -2, 0}, 0..3 values (arrays of the same / another dtype, a block array as right-hand side); plus the
+    invariant on the real object"""
+    rng = ctx.rng
+    jnp, BA = env.jnp, env.BlockArray
+    vals = [None] + list(range(-4, 5))
+    combos = [(n, a, b, st, m) for n in range(0, 4) for a in vals for b in vals for st in (None, 1, 2, -1, -2, 0) for m in range(0, 4)]
+    pick = combos if ctx.thorough else [combos[int(i)] for i in rng.permutation(len(combos))[:300]] + [(2, 0, 1, None, 3), (3, None, None, 2, 2), (3, None, None, -1, 3), (1, 0, 1, None, 1)]
+    for n, a, b, st, m in pick:
+        x = BA([jnp.full((i + 1,), float(i)) for i in range(n)])
+        r = rng.random()
+        other = r < 0.15 and m > 0
+        rhs = [jnp.full((2,), 10.0 + j).astype(jnp.float32 if (other and j == m - 1) else jnp.float64) for j in range(m)]
+        as_block = r > 0.7 and m > 0 and not other
+        atoms = {f"s#{i}": x.arrays[i] for i in range(n)}
+        atoms.update({f"v#{j}": rhs[j] for j in range(m)})
+        ev = Evaluator(atoms, env.resolve)
+        req = dict(blocks=[A(f"s#{i}") for i in range(n)], values=[A(f"v#{j}") for j in range(m)])
+        for kname, v in (("start", a), ("stop", b), ("step", st)):
+            if v is not None:
+                req[kname] = v
+        mres = run2(model, "setslice", req, ev)
+
+        def do():
+            x[slice(a, b, st)] = BA(rhs) if as_block else list(rhs)
+            return x
+
+        impl = impl_call(do, [], {})
+        ctx.case({"section": "setslice", "n": n, "slice": f"{a}:{b}:{st}", "values": m}, ("setslice", n, a, b, st, m))
+        ctx.count(f"setslice:model={'err:' + mres[1] if mres[0] == 'err' else 'ok/blocks=' + str(len(mres[1]['blk']))}")
+        agree = (mres[0] == "err" and impl == ("err", mres[1])) or (mres[0] == "ok" and impl[0] == "ok" and len(impl[1].arrays) == len(mres[1]["blk"])
+                                                                   and all(same_or_identical(ev.val(tm), impl[1].arrays[i]) for i, tm in enumerate(mres[1]["blk"])))
+        broken = None
+        if impl[0] == "ok":
+            blocks = impl[1].arrays
+            if not all(isinstance(bk, jnp.ndarray) for bk in blocks):
+                broken = "a block is not an array"
+            elif len({str(bk.dtype) for bk in blocks}) > 1:
+                broken = "heterogeneous dtypes"
+            else:
+                # a block array behaves as the list of its blocks
+                want = [jnp.full((i + 1,), float(i)) for i in range(n)]
+                try:
+                    want[slice(a, b, st)] = list(rhs)
+                    if len(want) != len(blocks) or any(not same(w, g) for w, g in zip(want, blocks)):
+                        broken = "differs from the same assignment on the list of the blocks"
+                except Exception:  # noqa: BLE001
+                    broken = "accepted although the same assignment on a list raises"
+        if broken or not agree:
+            fail = {"statement": f"x[{a}:{b}:{st}] = {m} arrays", "n_blocks": n, "violates": broken,
+                    "result": [str(bk.shape) + ":" + str(bk.dtype) for bk in impl[1].arrays] if impl[0] == "ok" else {"err": impl[1]}}
+            ctx.disagree("block.setslice", {"section": "setslice", "n": n, "start": a, "stop": b, "step": st, "values": m, "rhs_block": as_block, "other_dtype": other},
+                         fail["result"], show(env, mres, ev) if mres[0] == "ok" else {"err": mres[1]}, oracle=(lambda c, fail=fail: fail) if broken else None)
 
 
 def section_wrappers(env, ctx, model):
@@ -1666,6 +1814,10 @@ def section_trees(env, ctx, model):
         {"blk": 2},
         {"tup": [{"tup": []}, {"blk": 2}, {"tup": [{"tup": [{"blk": 2}]}]}]},
         {"tup": [{"blk": 0}, {"leaf": True}]},
+        # blocks that are pytrees themselves (what jax.hessian / jacfwd of a function of a block array return)
+        {"blk": [{"blk": 2}, {"blk": 1}]},
+        {"blk": [{"leaf": True}, {"tup": [{"leaf": True}, {"leaf": True}]}]},
+        {"tup": [{"blk": [{"blk": [{"leaf": True}]}, {"leaf": True}]}, {"leaf": True}]},
     ]
     counter = [0]
 
@@ -1674,6 +1826,10 @@ def section_trees(env, ctx, model):
         if "leaf" in sj:
             counter[0] += 1
             return jnp.full((2,), float(counter[0]))
+        if "blk" in sj and isinstance(sj["blk"], list):
+            ba = object.__new__(BA)  # the constructor only takes arrays: build the node as jax's unflatten does
+            ba.arrays = [build(c, as_dict) for c in sj["blk"]]
+            return ba
         if "blk" in sj:
             out = []
             for _ in range(sj["blk"]):
@@ -1687,7 +1843,7 @@ def section_trees(env, ctx, model):
         if "leaf" in mj:
             return same_or_identical(ev.val(mj["leaf"]), real)
         if "blk" in mj:
-            return isinstance(real, BA) and len(real.arrays) == len(mj["blk"]) and all(same_or_identical(ev.val(t), real.arrays[i]) for i, t in enumerate(mj["blk"]))
+            return isinstance(real, BA) and len(real.arrays) == len(mj["blk"]) and all(matches(t, real.arrays[i], ev) for i, t in enumerate(mj["blk"]))
         vals = list(real.values()) if isinstance(real, dict) else (list(real) if isinstance(real, tuple) else None)
         return vals is not None and len(vals) == len(mj["tup"]) and all(matches(c, v, ev) for c, v in zip(mj["tup"], vals))
 
@@ -1741,7 +1897,7 @@ def correspond(ctx, model):
     timing = {}
     # the sections that evaluate the property itself on small objects come first: at most 5 violations are written out
     for sec in (run_corpus, section_setitem, section_transparency, section_trees, section_names, section_reductions, section_creation,
-                section_operators, section_methods, section_slices, section_wrappers, section_pytree, section_random):
+                section_operators, section_nonlifted, section_methods, section_slices, section_setslice, section_wrappers, section_pytree, section_random):
         t0 = time.time()
         try:
             sec(env, ctx, model)
